@@ -426,10 +426,12 @@ double relBoundRatio, double pwrBoundRatio, size_t r5, size_t r4, size_t r3, siz
 	int confErrBoundMode = confparams_cpr->errorBoundMode;
 	double confAbsErrBound = confparams_cpr->absErrBound;
 	double confPwrBoundRatio = confparams_cpr->pw_relBoundRatio;
+	double confRelBoundRatio = confparams_cpr->relBoundRatio;
 	unsigned char* newByteData = SZ_compress_args_perCall(dataType, data, outSize, errBoundMode, absErrBound, relBoundRatio, pwrBoundRatio, r5, r4, r3, r2, r1);
 	confparams_cpr->errorBoundMode = confErrBoundMode;
 	confparams_cpr->absErrBound = confAbsErrBound;
 	confparams_cpr->pw_relBoundRatio = confPwrBoundRatio;
+	confparams_cpr->relBoundRatio = confRelBoundRatio;
 	return newByteData;
 }
 
